@@ -239,6 +239,45 @@ def _determine(U):
     U.run(body, check_feasible=False)
 
 
+@unit("C03", "autoNK: a symmetric FFT grid between the minimal one and twice it, and NKdiv = max(1, round(NK / THAT FFT grid))", scope="shape:NK in 1..24 (isotropic and anisotropic), three recommended FFT grids, two symmetry constraints", expect_min=3)
+def _autonk(U):
+    itv = U.fn(F_GR, "iterate_vector", globs={}, model=False, rewrite_comps=False)
+    f = U.fn(F_GR, "autoNK", globs=dict(np=rnp, iterate_vector=itv, print=lambda *a, **k: None), model=False, rewrite_comps=False)
+
+    def body():
+        bad_div, bad_fft, bad_best = [], [], []
+        for cname, sym in (("any grid", lambda g: True), ("x = y required", lambda g: g[0] == g[1])):
+            pg = types.SimpleNamespace(symmetric_grid=sym)
+            for rec in ((2, 2, 2), (3, 3, 2), (4, 4, 1)):
+                rec_a = rnp.array(rec)
+                cands0 = [g for g in itertools.product(*[range(rec[i], 3 * rec[i]) for i in range(3)]) if sym(g)]
+                fmin = rnp.array(min(cands0, key=lambda g: (g[0] * g[1] * g[2], cands0.index(g))))
+                for NK in [(n, n, n) for n in range(1, 25)] + [(10, 10, 7), (8, 8, 12), (5, 5, 24), (17, 17, 3)]:
+                    NKa = rnp.array(NK)
+                    d, fft = f(NKa, rec_a, pg)
+                    d, fft = rnp.array(d), rnp.array(fft)
+                    if not (sym(tuple(int(x) for x in fft)) and all(fmin[i] <= fft[i] < 2 * fmin[i] for i in range(3))):
+                        bad_fft.append((cname, rec, NK, fft.tolist()))
+                    want = rnp.maximum(1, rnp.round(NKa / fft).astype(int))
+                    if d.tolist() != want.tolist():
+                        bad_div.append((cname, rec, NK, d.tolist(), fft.tolist()))
+
+                    def score(g):
+                        g = rnp.array(g)
+                        dv = rnp.maximum(1, rnp.round(NKa / g).astype(int))
+                        r = dv * g / NKa
+                        r = rnp.where(r > 1, 1.0 / r, r)
+                        return r.min()
+                    cands = [g for g in itertools.product(*[range(int(fmin[i]), 2 * int(fmin[i])) for i in range(3)]) if sym(g)]
+                    best = max(score(g) for g in cands)
+                    if score(fft) < best - 1e-12:
+                        bad_best.append((cname, rec, NK, fft.tolist()))
+        U.ensure("the FFT grid returned is compatible with the symmetry and lies between the minimal symmetric grid and twice it", not bad_fft)
+        U.ensure("NKdiv = max(1, round(NK / FFT)) for the FFT grid that is RETURNED", not bad_div)
+        U.ensure("no admissible FFT grid reproduces the requested NK better (worst direction ratio)", not bad_best)
+    U.run(body, check_feasible=False)
+
+
 # ------------------------------------------------------------------ (3) the calculators average over their k-points
 from contracts import C13 as _c13      # noqa: E402
 
